@@ -4,7 +4,7 @@ Each model states Python's semantics for the modelled value sorts (DESIGN.md §7
 assumed).  Anything not modelled raises Unsupported (obligation undecided).
 """
 import z3
-from .engine import (VInt, VBool, VBytes, VStr, VNone, NONE, VTuple, VList, VJoin, VSeq, VMap, VObj, VExc,
+from .engine import (Val, VInt, VBool, VBytes, VStr, VNone, NONE, VTuple, VList, VJoin, VSeq, VMap, VObj, VExc,
                      VClass, VPy, VFunc, VOpaque, Unsupported, simp, BytesSort, StrSort, py_slice, bytes_lit)
 
 WS_BYTES = b' \t\n\r\x0b\x0c'
@@ -55,7 +55,7 @@ def call_builtin(X, f, args, kwargs):
 
 def isinstance_model(X, v, classes):
     table = {VInt: (int,), VBool: (bool, int), VStr: (str,), VBytes: (bytes,), VNone: (type(None),),
-             VTuple: (tuple,), VList: (list,), VJoin: (list,)}
+             VTuple: (tuple,), VList: (list,), VJoin: (list,), VSeq: (list,)}
     for vc, pys in table.items():
         if type(v) is vc:
             return z3.BoolVal(any(issubclass(p, c) for p in pys for c in classes if isinstance(c, type)))
@@ -106,6 +106,9 @@ def str_model(X, args):
     a = args[0]
     if _is(a, VStr):
         return a
+    r = X.contract.str_hook(X, a) if hasattr(X.contract, 'str_hook') else None
+    if r is not None:
+        return r
     if _is(a, VInt):
         return VStr(int_to_str(a.t))
     if _is(a, VBool):
@@ -226,6 +229,8 @@ def call_method(X, obj, name, args, kwargs):
                     raise Unsupported('str.strip() whitespace set')
                 chars = WS_BYTES
             return strip_model(X, obj, chars)
+        if name == 'split':
+            return split_model(X, obj, args, kwargs)
         if name == 'find':
             if len(args) != 1:
                 raise Unsupported('find with offsets')
@@ -252,3 +257,48 @@ def call_method(X, obj, name, args, kwargs):
                 return args[1]
             X.raise_(KeyError, 'pop')
     raise Unsupported(f'method {name} on {type(obj).__name__}')
+
+
+class VSplit(Val):
+    """result of  s.split(sep)  without maxsplit: only its use by tuple-unpacking is modelled"""
+
+    def __init__(self, S, s, sep):
+        self.S, self.s, self.sep = S, s, sep
+
+    def getitem(self, X, key):
+        k = simp(key.t) if _is(key, VInt) else None
+        if k is None or not z3.is_int_value(k) or k.as_long() != 0:
+            raise Unsupported('index into a split other than [0]')
+        i = z3.IndexOf(self.s, self.sep, z3.IntVal(0))
+        return self.S(z3.If(i >= 0, z3.SubSeq(self.s, 0, i), self.s))
+
+    def unpack(self, X, n):
+        if n != 2:
+            raise Unsupported('unpacking a split into other than 2 names')
+        s, sep = self.s, self.sep
+        i = z3.IndexOf(s, sep, z3.IntVal(0))
+        one = z3.And(i >= 0, z3.IndexOf(s, sep, i + z3.Length(sep)) < 0)
+        if not X.decide(one):
+            X.raise_(ValueError, 'unpack')
+        return [self.S(z3.SubSeq(s, 0, i)), self.S(z3.SubSeq(s, i + z3.Length(sep), z3.Length(s) - i - z3.Length(sep)))]
+
+
+def split_model(X, obj, args, kwargs):
+    """str/bytes.split(sep[, 1]) with a non-empty constant separator"""
+    if not args or kwargs:
+        raise Unsupported('split() on whitespace / with keywords')
+    sepc = _const_bytes(args[0])
+    if not sepc:
+        raise Unsupported('split with a symbolic or empty separator')
+    S = type(obj)
+    sep = args[0].t
+    if len(args) == 1:
+        return VSplit(S, obj.t, sep)
+    m = simp(args[1].t)
+    if not (z3.is_int_value(m) and m.as_long() == 1):
+        raise Unsupported('split with maxsplit other than 1')
+    i = z3.IndexOf(obj.t, sep, z3.IntVal(0))
+    if X.decide(i >= 0):
+        return VList([S(z3.SubSeq(obj.t, 0, i)),
+                      S(z3.SubSeq(obj.t, i + z3.Length(sep), z3.Length(obj.t) - i - z3.Length(sep)))])
+    return VList([obj])
